@@ -772,7 +772,7 @@ func ruleCLN7(c *Ctx) {
 		}
 		for _, ci := range callsIn(fn) {
 			callee := ci.Common().StaticCallee()
-			if callee == nil || callee.Name() != "Clone" || callee.Signature.Recv() == nil || !fnInModule(callee) {
+			if callee == nil || publicName(callee) != "Clone" || callee.Signature.Recv() == nil || !fnInModule(callee) {
 				continue
 			}
 			if isNamed(callee.Signature.Recv().Type(), fullPkg("ast"), "WorkingMemory") {
